@@ -57,7 +57,8 @@ ST = "esutil.stat.util."
 # rules that keep their verdict however the code is laid out (decided by term equality, effect analysis or per-path value
 # flow; they answer "not recognised" themselves when a construct cannot be identified); every other rule of this check is
 # a template rule (vcheck.core.Check.obt)
-SEMANTIC = ('R05.1', 'R05.2', 'R05.4', 'R05.3::chist::layout', 'R05.3::chist::element-casts', 'R05.3::Binner.__init__::data-is-float64', 'R05.5::dohist::dispatch')
+SEMANTIC = ('R05.1', 'R05.2', 'R05.4', 'R05.3::chist::layout', 'R05.3::chist::element-casts', 'R05.3::Binner.__init__::data-is-float64', 'R05.5::dohist::dispatch', 'R05.5::derive::given-specification-is-kept',
+            'R05.3::Binner._do_hist::reverse-indices-whenever-needed')
 
 
 def run(chk):
@@ -2297,6 +2298,234 @@ def pass_rules(chk, tag, ir, roles, where_of):
            "remembered bin that is paired with a remembered datum equal to the current one" % ("; ".join(w for _, w in why[:2]) + " -- rule: " if why and v is False else ""))
 
 
+# ---- every bin offset is stored, also for a bin that stays empty ---------------------------------------------------------
+# The reverse-index array arrives zeroed and every one of its first nbin+1 entries must end up >= nbin+1 (bin i is the slice
+# rev[rev[i]:rev[i+1]] of the index area, which starts at nbin+1): so every offset t in [0, nbin] has to be *stored* on every
+# run, in particular on the runs in which no datum opens bin t.  Decided by abstract interpretation of the engine over the class
+# of all runs in which no sorted datum is counted (reachable through the public interface: nbin= given and every datum equal
+# to the upper limit, so that each bin index is nbin): an iteration of the pass over the sort index then takes a path without
+# an increment of hist, the state such paths leave unchanged keeps its initial value, and the offsets stored are those of the
+# statements outside the pass.  The set of offsets stored is OVER-approximated (guards on stores are ignored, both arms of an
+# undecided test are taken, a fill loop stores its whole counter range) as a union of intervals with end points c or nbin + c;
+# an offset in [0, nbin] that lies outside even this set for every nbin >= 1 is never stored: violated.  Any store into the
+# array whose index is not understood gives no verdict.
+def _affine_n(e, N):
+    """(b, c) with e == b*N + c, b in (0, 1), c an integer; else None"""
+    try:
+        e = sp.expand(e)
+        b = e.coeff(N, 1)
+        c = sp.expand(e - b * N)
+        if b in (0, 1) and c.is_Integer:
+            return int(b), int(c)
+    except Exception:
+        pass
+    return None
+
+
+def _le_all(a, b):
+    """a <= b for every nbin >= 1 (a, b affine pairs)"""
+    d = b[0] - a[0]
+    return (b[1] - a[1] >= 0) if d == 0 else (1 + b[1] - a[1] >= 0) if d == 1 else False
+
+
+def _aff_text(a):
+    return ("nbin%s" % ("%+d" % a[1] if a[1] else "")) if a[0] else str(a[1])
+
+
+class _Cover:
+    def __init__(s, red):
+        s.red = red
+        s.P4, s.P5 = sp.Symbol("P4"), sp.Symbol("P5")
+        s.N = sp.Function("size")(s.P4)
+        s.iv = []                # (lo, hi, line) affine pairs
+        s.unknown = []           # texts of what was not understood
+        s.passes = 0
+        s.n = 0
+
+    def fresh(s, v):
+        s.n += 1
+        return sp.Symbol("?cov%d_%s" % (s.n, v))
+
+    def point(s, arr, idx, line, lo=None, hi=None):
+        if arr != s.P5:
+            if not (arr.is_Symbol and arr.name.startswith("P")):
+                s.unknown.append("store into `%s` (line %s)" % (arr, line))
+            return
+        a = _affine_n(idx if lo is None else lo, s.N)
+        b = _affine_n(idx if hi is None else hi, s.N)
+        if a is None or b is None:
+            s.unknown.append("store rev[%s] (line %s)" % (idx, line))
+        else:
+            s.iv.append((a, b, line))
+
+    def walk(s, stmts, env):
+        red = s.red
+        for st in stmts:
+            if isinstance(st, sibling.Assign):
+                env[st.n] = red.sx(st.e, env)
+            elif isinstance(st, sibling.Store):
+                s.point(red.arr(st.a, env), red.sx(st.i, env), getattr(st, "line", None))
+            elif isinstance(st, sibling.If):
+                c = red.truth(st.c, env)
+                if c == sp.true:
+                    s.walk(st.t, env)
+                elif c == sp.false:
+                    s.walk(st.f, env)
+                else:
+                    e1, e2 = dict(env), dict(env)
+                    s.walk(st.t, e1)
+                    s.walk(st.f, e2)
+                    for v in set(e1) | set(e2):
+                        a, b = e1.get(v), e2.get(v)
+                        env[v] = a if (a == b or b is None) else b if a is None else s.fresh(v)
+            elif isinstance(st, sibling.While):
+                if any(red.arr(x.a, {}) == s.P4 for x in _all_stores(st.b, []) if x.a[0] == "var") or s.counts(st, env):
+                    s.the_pass(st, env)
+                else:
+                    s.fill(st, env)
+            elif isinstance(st, _Exit):
+                return
+            else:
+                s.unknown.append("statement `%s`" % getattr(st, "text", st))
+
+    def counts(s, st, env):
+        e = dict(env)
+        for v in s.red.assigned(st.b, set()):
+            e[v] = sp.Symbol("H_%s" % v)
+        return any(s.red.arr(x.a, e) == s.P4 for x in _all_stores(st.b, []))
+
+    def the_pass(s, st, env):
+        """the pass over the sort index, in the runs where no iteration counts its datum"""
+        red = s.red
+        s.passes += 1
+        carried = sorted(red.assigned(st.b, set()))
+        benv = dict(env)
+        k = sp.Symbol("k", integer=True, nonnegative=True)
+        counters = {}
+        for v in carried:
+            tops = [x for x in st.b if isinstance(x, sibling.Assign) and x.n == v]
+            if _count_assign(st.b, v) == 1 and len(tops) == 1 and tops[0].e[0] == "bin" and tops[0].e[1] in "+-" and tops[0].e[2] == ("var", v) and tops[0].e[3][0] == "num" and v in env:
+                benv[v] = env[v] + tops[0].e[3][1] * (1 if tops[0].e[1] == "+" else -1) * k
+                counters[v] = tops[0]
+            else:
+                benv[v] = sp.Symbol("H_%s" % v)
+        try:
+            paths = _iter_paths(red, [x for x in st.b if not any(x is c for c in counters.values())], _IterPath(benv))
+        except NotImplementedError as e:
+            s.unknown.append("the pass over the sort index (%s)" % e)
+            paths = []
+        quiet = [p for p in paths if not any(ev[0] == s.P4 for ev in p.events)]
+        if paths and not quiet:
+            s.unknown.append("every path through one iteration of the pass increments hist")
+        for p in quiet:
+            if p.other or (p.exit is not None and p.exit.kind != "continue"):
+                s.unknown.append("a way out of the pass / an unmodelled statement on a path that counts nothing")
+            for arr, idx, val, conds, inner, line in p.events:
+                if arr != s.P5:
+                    s.point(arr, idx, line)
+                    continue
+                d = sp.expand(idx - s.N - 1)
+                if not inner and d.free_symbols <= {k} and d.subs(k, 0).is_Integer and d.subs(k, 0) >= 0 and sp.diff(d, k).is_Integer and sp.diff(d, k) >= 0:
+                    continue                          # a slot of the index area (at or past nbin + 1): not an offset
+                s.unknown.append("store rev[%s] on a path of the pass that counts nothing (line %s)" % (idx, line))
+        for v in carried:
+            if v in counters or not all(p.env.get(v) == sp.Symbol("H_%s" % v) for p in quiet) or v not in env:
+                env[v] = s.fresh(v)                   # (else: unchanged by every iteration that counts nothing -> keeps its entry value)
+
+    def fill(s, st, env):
+        """a loop outside the pass: the counter range, as the range of offsets its stores cover"""
+        red = s.red
+        carried = sorted(red.assigned(st.b, set()))
+        stores = _all_stores(st.b, [])
+        benv = dict(env)
+        ctr = {}
+        for v in carried:
+            tops = [x for x in st.b if isinstance(x, sibling.Assign) and x.n == v]
+            if _count_assign(st.b, v) == 1 and len(tops) == 1 and tops[0].e[0] == "bin" and tops[0].e[1] in "+-" and tops[0].e[2] == ("var", v) and tops[0].e[3] == ("num", 1) and v in env:
+                ctr[v] = 1 if tops[0].e[1] == "+" else -1
+                benv[v] = sp.Symbol("C_%s" % v, integer=True)
+            else:
+                benv[v] = s.fresh(v)
+        rng = None
+        if len(ctr) == 1:
+            (v, step), = ctr.items()
+            C = benv[v]
+            c = red.truth(st.c, benv)
+            start = env[v]
+            if isinstance(c, (sp.Lt, sp.Le, sp.Gt, sp.Ge, sp.Ne)):
+                lhs, rhs = c.lhs, c.rhs
+                rel = type(c)
+                if rhs == C and C not in lhs.free_symbols:
+                    lhs, rhs = rhs, lhs
+                    rel = {sp.Lt: sp.Gt, sp.Le: sp.Ge, sp.Gt: sp.Lt, sp.Ge: sp.Le, sp.Ne: sp.Ne}[rel]
+                if lhs == C and C not in rhs.free_symbols:
+                    if step > 0 and rel in (sp.Lt, sp.Ne):
+                        rng = (start, rhs - 1)
+                    elif step > 0 and rel is sp.Le:
+                        rng = (start, rhs)
+                    elif step < 0 and rel in (sp.Gt, sp.Ne):
+                        rng = (rhs + 1, start)
+                    elif step < 0 and rel is sp.Ge:
+                        rng = (rhs, start)
+        for x in stores:
+            arr = red.arr(x.a, benv)
+            idx = red.sx(x.i, benv)
+            ln = getattr(x, "line", None)
+            if arr != s.P5:
+                s.point(arr, idx, ln)
+            elif rng is not None and idx.free_symbols & {benv[v] for v in ctr}:
+                (v, step), = ctr.items()
+                s.point(arr, idx, ln, lo=idx.subs(benv[v], rng[0]), hi=idx.subs(benv[v], rng[1]))
+                if sp.diff(idx, benv[v]) != 1:
+                    s.unknown.append("store rev[%s] in the loop at line %s" % (idx, getattr(st, "line", None)))
+            elif _affine_n(idx, s.N) is not None:
+                s.point(arr, idx, ln)
+            else:
+                s.unknown.append("store rev[%s] in the loop at line %s" % (idx, getattr(st, "line", None)))
+        for v in carried:
+            env[v] = s.fresh(v)
+
+    def verdict(s):
+        """(ok, text)"""
+        top = (1, 0)
+        need = (0, 0)
+        for _ in range(len(s.iv) + 2):
+            if _le_all((top[0], top[1] + 1), need):
+                return (None if s.unknown else True), ""
+            best = None
+            for lo, hi, ln in s.iv:
+                if _le_all(lo, need) and _le_all(need, hi) and (best is None or _le_all(best, hi)):
+                    best = hi
+            if best is None:
+                out = all(_le_all((need[0], need[1] + 1), lo) or _le_all((hi[0], hi[1] + 1), need) for lo, hi, ln in s.iv)
+                if out and _le_all(need, top) and not s.unknown:
+                    return False, _aff_text(need)
+                return None, ""
+            need = (best[0], best[1] + 1)
+        return None, ""
+
+
+def offset_rule(chk, tag, ir, roles, where_of):
+    red = _TolRed(roles)
+    cov = _Cover(red)
+    try:
+        cov.walk(ir, {})
+    except _TOL + (sp.SympifyError, ValueError, RecursionError) as e:
+        cov.unknown.append("engine body (%s)" % e)
+    if cov.passes != 1:
+        cov.unknown.append("%d loops that increment hist" % cov.passes)
+    ok, t = cov.verdict()
+    got = sorted({"[%s, %s]" % (_aff_text(lo), _aff_text(hi)) if lo != hi else "[%s]" % _aff_text(lo) for lo, hi, ln in cov.iv})
+    lines = sorted({ln for lo, hi, ln in cov.iv if ln})
+    msg = "in a run where no sorted datum is counted (every bin stays empty) each offset rev[t], t in [0, nbin], is still stored -- the array arrives zeroed and bin t is the slice " \
+          "rev[rev[t]:rev[t+1]] of the index area that starts at nbin+1 (offsets that can be stored then, guards ignored: %s%s)" % (got, "; not understood: %s" % cov.unknown[:3] if cov.unknown else "")
+    if ok is False:
+        msg = "rev[%s] is never stored when no datum falls into that bin: the statements outside the pass over the sort index can only store the offsets %s, and inside the pass an offset is " \
+              "stored only on a path that counts a datum; the entry keeps the 0 it was allocated with, so the slice of bin %s starts inside the offsets instead of the index area and its length " \
+              "differs from hist[%s] -- rule: %s" % (t, got, t, t, msg)
+    chk.ob("R05.2", "engine::%s::every-offset-is-stored" % tag, ok, where_of(lines[0] if ok is False and lines else None), msg)
+
+
 def _reused_bin(red, L, V, conds):
     """the increment uses the loop carried value V as its index (a bin remembered from an earlier iteration).  (verdict, message)"""
     ties = []
@@ -2351,6 +2580,8 @@ def engines(chk, repo, py, cfn):
     pass_rules(chk, "py", _tol_py(py_l.body), {p: "P%d" % i for i, p in enumerate(_array_params(py_l))}, lambda ln: "%s:%s" % (rel, ln) if ln else py.where())
     cw0 = "esutil/stat/chist_pywrap.c"
     pass_rules(chk, "c", _tol_c((cfront.body_of(cfn_l) or {}).get("inner", []) or []), sibling.c_roles(cfn_l), lambda ln: "%s:%s" % (cw0, ln) if ln else "%s:%s" % (cw0, cfn.get("line", "?")))
+    offset_rule(chk, "py", _tol_py(py_l.body), {p: "P%d" % i for i, p in enumerate(_array_params(py_l))}, lambda ln: "%s:%s" % (rel, ln) if ln else py.where())
+    offset_rule(chk, "c", _tol_c((cfront.body_of(cfn_l) or {}).get("inner", []) or []), sibling.c_roles(cfn_l), lambda ln: "%s:%s" % (cw0, ln) if ln else "%s:%s" % (cw0, cfn.get("line", "?")))
     try:
         EA, ia, EB, ib = compare_engines(py_l, cfn_l)
     except AnalysisError as e:
@@ -2964,6 +3195,7 @@ def abi(chk, repo, cfn):
     want = dh.params[1:5]                      # data, dmin, sortind, bsize: the values _do_hist was given
     nbin_p = dh.params[5] if len(dh.params) > 5 else None
     v_c, v_p, v_buf, v_size = [], [], [], []
+    v_need, why_need = [], []
     seen = {"c": [], "py": []}
     c_bind = []
     for st in paths or []:
@@ -2990,6 +3222,7 @@ def abi(chk, repo, cfn):
         (v_c if kind == "c" else v_p).append(bool(roles))
         if not all(p in b for p in pe.params[4:6]):
             continue
+        v_need.extend(_rev_when_needed(st, b[pe.params[5]], dh, kind, why_need))
         h, r = _zeros(b[pe.params[4]]), (None if _is_none(b[pe.params[5]]) else _zeros(b[pe.params[5]]))
         if h is None or (r is None and not _is_none(b[pe.params[5]])):
             v_buf.append(None)
@@ -3015,6 +3248,10 @@ def abi(chk, repo, cfn):
     # python-side dtype provenance of the buffers that reach the engines
     chk.ob("R05.3", "Binner._do_hist::int64-out-buffers", _verdict(v_buf), dh.where(), "hist (nbin) and rev reach the engines as freshly zeroed int64 arrays")
     chk.ob("R05.3", "Binner._do_hist::rev-size", _verdict(v_size), dh.where(), "rev has nbin+1 offsets followed by one slot per sorted datum")
+    vn = _verdict(v_need)
+    chk.ob("R05.3", "Binner._do_hist::reverse-indices-whenever-needed", vn, dh.where(),
+           "%sboth engines are handed a reverse-index array whenever reverse indices are needed -- the caller asked for them, or weights are present (the weighted histogram is summed "
+           "over them and 'rev' is part of the result then) -- so the engines return the same arrays in every configuration" % ("; ".join(sorted(set(why_need))[:2]) + " -- rule: " if vn is False and why_need else ""))
     init = repo.func(ST + "Binner.__init__")
     # the value that reaches the cell self.x on every path that returns, private conversion helpers followed
     vs, seen_x = [], set()
@@ -3052,6 +3289,40 @@ def abi(chk, repo, cfn):
     sort_index_values(chk, repo, si)
     # the two callers of _do_hist pass float64 data and an int64 sort index
     engine_callers(chk, repo, dh)
+
+
+def _rev_when_needed(st, revarg, dh, kind, why):
+    """per-path verdicts of R05.3 reverse-indices-whenever-needed for the path st of the engine dispatcher, whose one engine
+    call (kind 'c' / 'py') receives `revarg` as the reverse-index array.  The need is a function of two inputs: the truth of
+    the dispatcher's rev parameter and whether the public cell self.weights is None.  For each of the three configurations in
+    which reverse indices are needed the path's branch decisions are evaluated (three-valued): a path that hands the engine None
+    and whose decisions on rev / self.weights all come out as taken in that configuration is a violation; a decision on them that
+    cannot be evaluated gives no verdict; decisions on anything else (which engine is available) do not depend on the
+    configuration and are left alone."""
+    rev_p = dh.params[6] if len(dh.params) > 6 else None
+    if rev_p is None:
+        return [None]
+    if not _is_none(revarg):
+        return [True if _zeros(revarg) is not None else None]
+    out = []
+    for rv, w, text in ((True, NOTNONE, "%s is true and weights are present" % rev_p), (True, None, "%s is true" % rev_p), (False, NOTNONE, "weights are present and %s is false" % rev_p)):
+        flags = {rev_p: rv, "self.weights": w}
+        verdict = False
+        for t, truth in st.conds:
+            names = {norm(x) for x in ast.walk(t) if isinstance(x, (ast.Name, ast.Attribute))}
+            if not names & {rev_p, "self.weights"}:
+                continue
+            v = eval_test(t, flags)
+            if v is None:
+                verdict = None
+            elif v != truth:
+                verdict = True                     # the path is not taken in this configuration
+                break
+        out.append(verdict)
+        if verdict is False:
+            why.append("when %s the %s engine is called with no reverse-index array (rev argument None on the path where %s)"
+                       % (text, "compiled" if kind == "c" else "pure-Python", " and ".join("`%s` is %s" % (norm(t), truth) for t, truth in st.conds) or "no test is made"))
+    return out
 
 
 # element types that are the same object representation on the assumed platform (LP64): spelled one way for the comparison
@@ -3523,6 +3794,7 @@ def engine_callers(chk, repo, dh):
     paths = _paths(repo, fi, opaque=(dh.name, "_dohist"))
     bs_p, nb_p = fi.params[1], fi.params[2]
     v_args, v_nbin, v_bsize, v_store = [], [], [], []
+    v_kept, why_kept = [], []
     shown = {}
     for bs, nb in ((NOTNONE, NOTNONE), (NOTNONE, None), (None, NOTNONE)):
         flags = {bs_p: bs, nb_p: nb}
@@ -3550,6 +3822,17 @@ def engine_callers(chk, repo, dh):
                 v_nbin.append(True if _is_name(nbn, nb_p) else None)
                 m = [pat.match(p, bsz, commutative=False) for p in DERIVE_BSIZE]
                 v_bsize.append(True if any(x is not None and _is_name(x["_N"], nb_p) for x in m) else _derive_contra(bsz))
+            # the half of the bin specification the caller gave reaches the engine as given (value flow, per path and per case)
+            for given, par, got, what in ((bs, bs_p, bsz, "bin size"), (nb, nb_p, nbn, "bin count")):
+                if given is None or (bs is not None and nb is not None):
+                    continue                          # (both given: which one wins is the public wrapper's business, histogram::nbin-overrides-binsize)
+                k = _given_kept(got, par)
+                v_kept.append(k)
+                if k is False:
+                    why_kept.append("with %s= given (and no %s) the %s that reaches the engine is `%s`, a value recomputed from the data range (max - min), not the caller's `%s`%s"
+                                    % (par, "nbin" if par == bs_p else "binsize", what, norm(got)[:160], par,
+                                       ": trunc((max-min)/((max-min)/nbin)) + 1 is nbin + 1 -- one bin too many, and the data equal to the upper limit (bin index nbin, not a valid bin) "
+                                       "are counted in it" if par == nb_p and any(pat.match(p, got) is not None for p in DERIVE_NBIN) else ""))
             e = {k: _simp(v, flags) for k, v in st.env.items() if k.startswith("self[")}
             call = cs[0].value
             okst = "self['binsize']" in e and pat.same(e["self['binsize']"], bsz) and "self['nbin']" in e and pat.same(e["self['nbin']"], nbn) and \
@@ -3561,6 +3844,9 @@ def engine_callers(chk, repo, dh):
     chk.ob("R05.5", "derive::nbin-from-binsize", _verdict(v_nbin), fi.where(), "nbin = trunc((max-min)/binsize) + 1 (the largest datum maps to the last bin): %s" % (shown,))
     chk.ob("R05.5", "derive::binsize-from-nbin", _verdict(v_bsize), fi.where(), "binsize = (max-min)/nbin: %s" % (shown,))
     chk.ob("R05.5", "derive::results-stored", _verdict(v_store), fi.where(), "hist / rev / binsize / nbin are stored as computed")
+    vk = _verdict(v_kept)
+    chk.ob("R05.5", "derive::given-specification-is-kept", vk, fi.where(), "%sthe bin size / bin count the caller gives is the one the histogram is made with (only the other one is derived from it and the data range)"
+           % ("; ".join(sorted(set(why_kept))[:2]) + " -- rule: " if vk is False and why_kept else ""))
     # ---- the equal-occupancy histogram ---------------------------------------------------
     fi = method(repo, "bynum")
     chk.analysed_unit(fi.qualname)
@@ -3606,6 +3892,24 @@ def _derive_contra(e):
     anything else: not recognised"""
     t = norm(e)
     return False if ("self.dmax" in t and "self.dmin" in t) else None
+
+
+def _given_kept(e, par):
+    """what reaches the engine for a specification parameter the caller gave: the parameter itself (a scalar conversion of it
+    included): held; a plain arithmetic value computed from the data range self.dmax / self.dmin: violated (for a given bin
+    count / bin size the value must not depend on the data); anything else (conditional values, other helpers): not recognised"""
+    u = e
+    while isinstance(u, ast.Call) and dotted_name(u.func) in _PURE_CALLS and len(u.args) == 1 and not u.keywords:
+        u = u.args[0]
+    if _is_name(u, par):
+        return True
+    if any(isinstance(x, (ast.IfExp, ast.BoolOp, ast.Lambda, ast.Compare)) for x in ast.walk(e)):
+        return None
+    cells = {norm(x) for x in ast.walk(e) if isinstance(x, ast.Attribute)}
+    if "self.dmax" in cells and "self.dmin" in cells and all(dotted_name(x.func) in _PURE_CALLS + ("round", "np.ceil", "np.floor", "np.round", "np.rint", "np.trunc", "math.ceil", "math.floor")
+                                                             for x in ast.walk(e) if isinstance(x, ast.Call)):
+        return False
+    return None
 
 
 # ---- R05.4 ----------------------------------------------------------------------
